@@ -20,7 +20,9 @@ XIXI_BUGS = [
     ('OpenLeaksLock', dict(Features='{"powerloss", "torn"}', MaxOps=2, MaxFaults=1, MaxMerges=0, MaxRestarts=0, Bug2='"TornTailFails"'), ['LockDiscipline']),
     ('TornTailFails', dict(Features='{"powerloss", "torn"}', MaxOps=2, MaxFaults=1, MaxMerges=0, MaxRestarts=0), ['NeverFails']),
     ('MergeMarksUnflushed', dict(Features='{"merge", "delete", "powerloss", "restart"}', MaxOps=3, MaxFaults=1, Vals='{1, 2}', BigVals='{}'), ['RecoveredOK']),
-    ('BatchFlushPublishes', dict(Features='{"batch", "delete", "merge", "crash"}', MaxOps=4, MaxFaults=1, MaxRestarts=0, Vals='{1}', BigVals='{}'), ['RecoveredOK']),
+    # (since the fix F30 the marker waits for the database lock, which an open batch holds: the early publication
+    #  is only harmful together with the unflushed marker)
+    ('BatchFlushPublishes', dict(Features='{"batch", "delete", "merge", "crash"}', MaxOps=4, MaxFaults=1, MaxRestarts=0, Vals='{1}', BigVals='{}', Bug2='"MergeMarksUnflushed"'), ['RecoveredOK']),
 ]
 
 def expect_violation(ctx, mc, what):
@@ -50,7 +52,7 @@ def run(a):
             props = ['MergeDirGone'] if bug == 'MarkerUnreadable' else []
             mc = xixi_mc('ST_' + bug, invs or ['MapSemantics'], properties=props, quick=c)
             good &= expect_violation(ctx, mc, 'XiXiKV ' + bug)
-        for bug in ['IndexOutsideLock', 'DeleteCheckUnlocked', 'ListKeysSizeLater', 'CloneUnderRLock', 'UnlockedReads', 'UnlockAroundSync']:
+        for bug in ['IndexOutsideLock', 'DeleteCheckUnlocked', 'ListKeysSizeLater', 'CloneUnderRLock', 'UnlockedReads', 'UnlockAroundSync', 'BgReadsUnlocked']:
             cfg = CONC_CFG.replace('Bug = {}', 'Bug = {"%s"}' % bug)
             mc = dict(module='MC_Conc', name='ST_Conc_' + bug, cfg=cfg, consts=dict(Invs='QuiescentLiveEqualsRecovered IndexShowsRegister GetReturnsRegister NoPanic NoInternalError NoDeadlock NoRace', Menu='MenuAll', Clients='{"a", "b", "c"}'))
             good &= expect_violation(ctx, mc, 'Conc ' + bug)
